@@ -59,7 +59,11 @@ def run_case(prop: str, case: dict) -> dict:
     tmp = tempfile.mkdtemp(prefix="sfa_selftest_")
     try:
         pkgdir = _copy_pkg(tmp)
-        why = _apply(pkgdir, case["edits"])
+        if "patch" in case:
+            pr = subprocess.run(["patch", "-p1", "-s", "-f", "-d", tmp, "-i", case["patch"]], capture_output=True, text=True)
+            why = "" if pr.returncode == 0 else "patch does not apply to this tree: " + (pr.stdout + pr.stderr)[-200:]
+        else:
+            why = _apply(pkgdir, case["edits"])
         if why:
             return {"id": case["id"], "status": "stale", "why": why}
         env = dict(os.environ)
@@ -124,12 +128,37 @@ def run_metamorph(prop: str, name: str, base_keys) -> dict:
         shutil.rmtree(tmp, ignore_errors=True)
 
 
+def seed_cases(prop: str) -> List[dict]:
+    """the confirmed seeded changes kept under /verif/seeded (made by independent sub-agents, each shown to break the
+    property while passing the test suite) that this property's check is recorded to detect: mutation witnesses"""
+    out = []
+    root = os.path.join(VERIF, "seeded")
+    if not os.path.isdir(root):
+        return out
+    for d in sorted(os.listdir(root)):
+        mp, pp = os.path.join(root, d, "meta.json"), os.path.join(root, d, "patch.diff")
+        if not (os.path.exists(mp) and os.path.exists(pp)):
+            continue
+        try:
+            with open(mp) as f:
+                meta = json.load(f)
+        except ValueError:
+            continue
+        hits = (meta.get("detected_by") or {}).get(prop) or []
+        if not hits:
+            continue
+        rule = hits[0].split(" @ ")[0].strip()
+        out.append({"id": "seed:" + d, "expect": "fire", "key": rule, "patch": pp})
+    return out
+
+
 def cases_for(prop: str) -> List[dict]:
     try:
         mod = importlib.import_module(f"sfa.cases.{prop.lower()}")
+        cases = list(mod.CASES)
     except ModuleNotFoundError:
-        return []
-    return list(mod.CASES)
+        cases = []
+    return cases + seed_cases(prop)
 
 
 def selftest(ctx, only=None):
